@@ -26,7 +26,34 @@ THEOREMS = [
     "C13_object_with_declaration_roundtrip",
     "C13_object_roundtrip_module_ordered",
     "C13_roundtrip_eq_hash",
+    "C13_generated_iface_reduce_eq_model",
+    "C13_generated_empty_reduce_eq_model",
+    "C13_generated_implements_reduce_eq_model",
+    "C13_generated_provides_reduce_eq_model",
+    "C13_generated_classprovides_reduce_eq_model",
+    "C13_generated_new_spec_eq_model",
+    "C13_generated_factory_eq_model",
+    "C13_generated_changed_eq_model",
+    "C13_generated_directlyProvides_normalises",
 ]
+
+
+def regenerate(run):
+    """Re-derive coq/Gen/ReduceKernel.v from the current interface.py / declarations.py (fail closed)."""
+    import os
+    from ..translate import reduce as TR
+    gen = os.path.join(C.COQ, "Gen", "ReduceKernel.v")
+    try:
+        text = TR.translate(os.path.join(C.REPO, "src", "zope", "interface"))
+        C.write_if_changed(gen, text)
+        return []
+    except Exception as e:  # noqa: refuse, report, keep the pipeline alive on the pinned kernel
+        C.write_if_changed(gen, TR.PINNED)
+        return ["harness/translate/reduce.py refused the current source (%s: %s); coq/Gen/ReduceKernel.v holds the "
+                "pinned kernel, so the C13_generated_*_eq_model theorems are NOT about the current source"
+                % (type(e).__name__, e)]
+
+
 RULE = ("generated importable module: interface DAG of 1..5 interfaces (<= 2 bases, some in C3-inconsistent "
         "order), 1..4 classes (<= 2 bases, multiple inheritance), 0..3 instances with plain attributes; history "
         "of 0..8 class-level operations (classImplements/implementer, classImplementsOnly/implementer_only, "
@@ -39,7 +66,11 @@ RULE = ("generated importable module: interface DAG of 1..5 interfaces (<= 2 bas
         "specification, class provides, instance provides and instance round-tripped with protocols 0..5 in the "
         "same process and into a fresh process; a case is non-trivial when some class specification or "
         "provides-declaration declares at least one interface; distinct = distinct set of shape tags")
-TRUSTED_BASE = ["the pickle module itself (GLOBAL lookup, REDUCE, NEWOBJ/BUILD) is trusted, not modelled; "
+TRUSTED_BASE = ["harness/translate/reduce.py: the abstraction self.inherit -> im_inherit, self._implements_cls -> im_cls, "
+                "`return <str>` = pickle by global name, __init__'s `self.__args = (params, ) + interfaces` -> record "
+                "fields (metacls = type), InstanceDeclarations.get / [..] = / del -> cache_get / cache_set / filter; "
+                "statement shapes other than the ones it lists abort the translation",
+                "the pickle module itself (GLOBAL lookup, REDUCE, NEWOBJ/BUILD) is trusted, not modelled; "
                 "its by-name behaviour is observed with pickletools on every payload"]
 ASSUMPTIONS = ["the generated modules stay importable under the same name in the unpickling process",
                "classes use the metaclass `type`; declarations name interfaces only (not Interface itself, not "
@@ -434,11 +465,11 @@ def replay_text(case, obs, mode):
     return "\n".join(lines)
 
 
-TECHNIQUE = ("Coq proof over a Gallina model of the __reduce__ methods, implementedBy, the class declaration "
+TECHNIQUE = ("Coq proof over a Gallina model (its pickling kernel regenerated from the source by a fail-closed translator) of the __reduce__ methods, implementedBy, the class declaration "
              "operations and the Provides factory with its weak cache; vm_compute correspondence with real "
              "pickle.dumps/loads in both implementations, same process and fresh process, protocols 0..5, plus a "
              "pickletools scan of every payload")
-LEVEL_TEXT = ("Machine-checked theorems (Properties/C13.v, 16 theorems, closed under the global context) state, for every "
+LEVEL_TEXT = ("Machine-checked theorems (Properties/C13.v, 25 theorems, closed under the global context) state, for every "
               "world of importable interfaces and classes and every history of declaration operations with no bound: "
               "interfaces, classes and class specifications (inherited, only, first; the reduction always names the "
               "spec's own class) unpickle to the identical object; every provides-declaration still in the shared "
